@@ -237,4 +237,64 @@ theorem states_manager_1d (L R : Nat) (hL : 0 < L) (hR : 0 < R) :
     rw [smStep_all_adm _ _ n hall (by omega)] at hc
     simp at hc
 
+/-! ### box grid (common origin index `o`, axis sizes `ns`) with `PairingToZd`, zero omitted -/
+
+def smBoxAdm (projD : Nat → Nat → List Nat) (o : Nat) (ns : List Nat) (i : Nat) : Bool :=
+  inBox o ns (zdProject projD 1 ns.length i)
+
+theorem inBox_length (o : Nat) : ∀ (ns : List Nat) (v : List Int), inBox o ns v = true → v.length = ns.length := by
+  intro ns
+  induction ns with
+  | nil => intro v h; cases v with
+    | nil => rfl
+    | cons a t => simp [inBox] at h
+  | cons n ns ih =>
+    intro v h
+    cases v with
+    | nil => simp [inBox] at h
+    | cons a t =>
+      simp only [inBox, Bool.and_eq_true] at h
+      simp only [List.length_cons, ih t h.2]
+
+/-- **each in-box non-origin state exactly once, then exhaustion** for any pairing that is a bijection ℕ ↔ ℕ^d,
+*under the hypothesis that the search bound exceeds every in-box index* (`hb`).  Monotone pairings (Szudzik: see
+`szudzik_frontier_bound`) satisfy `hb` with the bound the code computes; Rosenberg–Strong does not
+(`rs_frontier_bound_counterexample`). -/
+theorem states_manager_box {pairN : List Nat → Nat} {projD : Nat → Nat → List Nat} (o : Nat) (ns : List Nat)
+    (h : NdBij pairN projD ns.length) (bound : Nat)
+    (hb : ∀ v, inBox o ns v = true → v ≠ List.replicate ns.length 0 → zdPair pairN 1 v < bound) :
+    (∀ v, inBox o ns v = true → v ≠ List.replicate ns.length 0 →
+        ∃ j : Nat, zdPair pairN 1 v = j ∧ zdProject projD 1 ns.length j = v ∧
+          ∀ n, j < n → (smRun (smBoxAdm projD o ns) bound n).2.count (some j) = 1) ∧
+    (∀ j n, (smRun (smBoxAdm projD o ns) bound n).2.count (some j) ≤ 1 ∧
+        (0 < (smRun (smBoxAdm projD o ns) bound n).2.count (some j) →
+          inBox o ns (zdProject projD 1 ns.length j) = true ∧
+          zdProject projD 1 ns.length j ≠ List.replicate ns.length 0)) ∧
+    (∀ n, bound ≤ n → (smStep (smBoxAdm projD o ns) bound (-1) (smRun (smBoxAdm projD o ns) bound n).1 n).2 = none) ∧
+    (∀ n, (smStep (smBoxAdm projD o ns) bound (-1) (smRun (smBoxAdm projD o ns) bound n).1 n).2 = none →
+        ∀ v, inBox o ns v = true → v ≠ List.replicate ns.length 0 →
+          ∃ j : Nat, zdProject projD 1 ns.length j = v ∧ (smRun (smBoxAdm projD o ns) bound n).2.count (some j) = 1) := by
+  refine ⟨fun v hv hv0 => ?_, fun j n => ?_, fun n hn => sm_exhausts _ _ n hn, fun n hnone v hv hv0 => ?_⟩
+  · obtain ⟨j, hj, hp⟩ := zd_project_pair h v (inBox_length o ns v hv) hv0
+    have hlt := hb v hv hv0
+    refine ⟨j, hj, hp, fun n hn => sm_returned_once _ _ j n (by omega) ?_ hn⟩
+    simp only [smBoxAdm, hp, hv]
+  · obtain ⟨a, b⟩ := sm_at_most_once (smBoxAdm projD o ns) bound j n
+    exact ⟨a, fun hc => ⟨(b hc).2, zd_project_ne_zero h j⟩⟩
+  · obtain ⟨j, hj, hp⟩ := zd_project_pair h v (inBox_length o ns v hv) hv0
+    have hlt := hb v hv hv0
+    refine ⟨j, hp, sm_no_early_exhaustion _ _ n hnone j (by omega) ?_⟩
+    simp only [smBoxAdm, hp, hv]
+
+/-- FULL STATEMENT THAT DOES NOT HOLD for the code's bound with Rosenberg–Strong (the factory's pairing for d ≥ 3):
+  `∀ v, inBox o ns v → v ≠ 0 → zdPair rsPair 1 v < maxFrontier (zdPair rsPair 1) o ns + 1`.
+Negation witnesses: on the 3×3 grid the in-box state (-1, 0) has index 7 but the largest *frontier* index is 6; on
+the 3×3×3 grid (-1, 0, 0) has index 25, the largest frontier index is 20.  By `sm_never_beyond_bound` these states
+are never returned. -/
+theorem rs_frontier_bound_counterexample :
+    (inBox 1 [3, 3] [-1, 0] = true ∧ zdPair rsPair 1 [-1, 0] = 7 ∧ maxFrontier (zdPair rsPair 1) 1 [3, 3] = 6) ∧
+    (inBox 1 [3, 3, 3] [-1, 0, 0] = true ∧ zdPair rsPair 1 [-1, 0, 0] = 25 ∧
+      maxFrontier (zdPair rsPair 1) 1 [3, 3, 3] = 20) := by decide
+
+
 end Rpylib.Pairing
